@@ -40,3 +40,23 @@ func init() {
 		r.Floor("const index", m, 1)
 	})
 }
+
+// Fields of mutex-bearing structs that are written after construction without
+// the struct's mutex, each with the reason why that is not a race.
+var lockExempt = map[string]string{
+	"ctpolicy.LogGroupInfo.MinInclusions":                   "set by setMinInclusions while the policy builds the group (LogsByGroup / BaseGroupFor), before the group is handed to any goroutine",
+	"scanner.Fetcher.sth":                                   "written by Prepare before Run starts its goroutines and afterwards only by the single range-generator goroutine (updateSTH); read only by Prepare",
+	"scanner.Fetcher.sthBackoff":                            "used only by the single range-generator goroutine (updateSTH)",
+	"submission.Distributor.logClients":                     "filled by buildLogClients, which only NewDistributor calls before the Distributor is returned; read-only afterwards",
+	"submission.Distributor.rootCompatibilityCheckDisabled": "set by a DistributorOption applied inside NewDistributor; read-only afterwards",
+	"submission.LogListManager.llRefreshInterval":           "set at the top of Run before the refresh goroutine is started",
+	"submission.Proxy.llRefreshInterval":                    "set at the top of Run before any goroutine is started",
+	"submission.Proxy.rootsRefreshInterval":                 "set in NewProxy and at the top of Run before any goroutine is started; read by restartDistributor on the goroutine Run starts afterwards",
+}
+
+func init() {
+	register("LOCKDISC", "development: lock discovery", func(r *Run) {
+		r.Rule("LOCKDISC")
+		r.LockDiscover([]string{"submission", "ctpolicy", "jsonclient", "scanner", "ctutil", "trillian/ctfe"}, lockTable, lockExempt)
+	})
+}
